@@ -352,32 +352,39 @@ func (cachehist) Exec(w *World, cc any, prop string) *Result {
 
 	for oi, op := range c.Ops {
 		res.Ops++
-		switch op.Op {
-		case "write":
-			s.write(op.Path, op.Content)
-			res.event("op%d write %s=%s", oi, op.Path, op.Content)
-		case "delete":
-			s.delete(op.Path)
-			res.event("op%d delete %s", oi, op.Path)
-		case "ctl":
-			if td := s.prog.Task(op.Task); td != nil && op.Cmd < td.NCmd {
-				s.setCtl(op.Task, op.Cmd, op.Exit)
-				if op.Exit != 0 {
-					res.count(fmt.Sprintf("fault_present:command_exit_status_%s", exitClass(op.Exit)))
-				}
-			}
-			res.event("op%d ctl %s_%d=%d", oi, op.Task, op.Cmd, op.Exit)
-		case "rmcache":
-			s.rmCache(op.What)
-			res.count("fault_fired:cache_removed_" + op.What)
-			res.event("op%d rmcache %s", oi, op.What)
-		case "run":
-			if stop := s.judgeRun(res, c, oi, op, prop, sig); stop {
+		if op.Op == "run" {
+			if stop := s.judgeRun(res, c.Sched, c.hadForceBefore(oi), fmt.Sprintf("op%d", oi), op, prop, sig); stop {
 				return res
 			}
+			continue
 		}
+		s.applyOp(res, fmt.Sprintf("op%d", oi), op)
 	}
 	return res
+}
+
+// applyOp performs a non-run operation on the disk and the model.
+func (s *projState) applyOp(res *Result, oi string, op CHOp) {
+	switch op.Op {
+	case "write":
+		s.write(op.Path, op.Content)
+		res.event("%s write %s=%s", oi, op.Path, op.Content)
+	case "delete":
+		s.delete(op.Path)
+		res.event("%s delete %s", oi, op.Path)
+	case "ctl":
+		if td := s.prog.Task(op.Task); td != nil && op.Cmd < td.NCmd {
+			s.setCtl(op.Task, op.Cmd, op.Exit)
+			if op.Exit != 0 {
+				res.count(fmt.Sprintf("fault_present:command_exit_status_%s", exitClass(op.Exit)))
+			}
+		}
+		res.event("%s ctl %s_%d=%d", oi, op.Task, op.Cmd, op.Exit)
+	case "rmcache":
+		s.rmCache(op.What)
+		res.count("fault_fired:cache_removed_" + op.What)
+		res.event("%s rmcache %s", oi, op.What)
+	}
 }
 
 func exitClass(n int) string {
@@ -389,11 +396,11 @@ func exitClass(n int) string {
 }
 
 // judgeRun performs one run operation and evaluates the predicates of prop.
-func (s *projState) judgeRun(res *Result, c *CHCase, oi int, op CHOp, prop, sig string) (stop bool) {
+func (s *projState) judgeRun(res *Result, sched Sched, forceBefore bool, oi string, op CHOp, prop, sig string) (stop bool) {
 	w := s.w
 	closure, ok := s.prog.Closure(op.Tasks)
 	if !ok || len(op.Tasks) == 0 {
-		res.event("op%d run skipped (undefined task in request)", oi)
+		res.event("%s run skipped (undefined task in request)", oi)
 		return false
 	}
 	cwd := filepath.Join(w.Proj, filepath.FromSlash(op.Cwd))
@@ -405,19 +412,19 @@ func (s *projState) judgeRun(res *Result, c *CHCase, oi int, op CHOp, prop, sig 
 	for _, n := range closure {
 		classes = append(classes, s.stateClass(s.prog.Task(n)))
 	}
-	obs := w.Invoke(Invocation{Args: runArgs(op), Cwd: cwd, Env: w.BaseEnv(), Inv: s.inv, Sched: c.Sched, Faults: NoFaults()})
+	obs := w.Invoke(Invocation{Args: runArgs(op), Cwd: cwd, Env: w.BaseEnv(), Inv: s.inv, Sched: sched, Faults: NoFaults()})
 	s.inv++
 	res.Steps += len(obs.Trace)
 	delta := s.logDelta()
 	v := s.view(delta)
-	res.event("op%d run %v force=%v json=%v quiet=%v cwd=%q failed=%v log=%v perms=%v sched=%s", oi, op.Tasks, op.Force, op.JSON, op.Quiet, op.Cwd, obs.Failed, delta, obs.Perms, shortHash(strings.Join(obs.Trace, " ")))
+	res.event("%s run %v force=%v json=%v quiet=%v cwd=%q failed=%v log=%v perms=%v sched=%s", oi, op.Tasks, op.Force, op.JSON, op.Quiet, op.Cwd, obs.Failed, delta, obs.Perms, shortHash(strings.Join(obs.Trace, " ")))
 
 	if obs.Out.Panic != "" || obs.Out.Deadlock || obs.Out.Livelock || obs.HashLeak {
-		res.Abandoned = fmt.Sprintf("C18: invocation op%d ended abnormally (%s): %s", oi, outcomeStr(obs.Out), short(obs.Out.Panic, 200))
+		res.Abandoned = fmt.Sprintf("C18: invocation %s ended abnormally (%s): %s", oi, outcomeStr(obs.Out), short(obs.Out.Panic, 200))
 		return true
 	}
 	if v.dupes {
-		res.Abandoned = fmt.Sprintf("C03: a command ran twice in op%d: %v", oi, delta)
+		res.Abandoned = fmt.Sprintf("C03: a command ran twice in %s: %v", oi, delta)
 		return true
 	}
 
@@ -427,19 +434,19 @@ func (s *projState) judgeRun(res *Result, c *CHCase, oi int, op CHOp, prop, sig 
 		if op.JSON {
 			var jr []jsonResult
 			if err := json.Unmarshal([]byte(obs.Stdout), &jr); err != nil {
-				res.Abandoned = fmt.Sprintf("C20: --json output of op%d is not one JSON document: %v", oi, err)
+				res.Abandoned = fmt.Sprintf("C20: --json output of %s is not one JSON document: %v", oi, err)
 				return true
 			}
 			for _, r := range jr {
 				reported[r.Task] = r.Skipped
 				if td := s.prog.Task(r.Task); td != nil && td.NCmd > 0 && r.Skipped == (len(v.markers[r.Task]) > 0) {
-					res.Abandoned = fmt.Sprintf("C20: op%d reports task %s skipped=%v but its commands ran=%v", oi, r.Task, r.Skipped, len(v.markers[r.Task]) > 0)
+					res.Abandoned = fmt.Sprintf("C20: %s reports task %s skipped=%v but its commands ran=%v", oi, r.Task, r.Skipped, len(v.markers[r.Task]) > 0)
 					return true
 				}
 			}
 			for _, n := range closure {
 				if _, ok := reported[n]; !ok {
-					res.Abandoned = fmt.Sprintf("C03: op%d: task %s is in the requested closure but missing from the --json report", oi, n)
+					res.Abandoned = fmt.Sprintf("C03: %s: task %s is in the requested closure but missing from the --json report", oi, n)
 					return true
 				}
 			}
@@ -450,7 +457,7 @@ func (s *projState) judgeRun(res *Result, c *CHCase, oi int, op CHOp, prop, sig 
 				ran := len(v.markers[n]) > 0
 				if !strings.Contains(obs.Stdout, n) {
 					if !ran {
-						res.Abandoned = fmt.Sprintf("C03: op%d: task %s is in the requested closure but was neither executed nor mentioned", oi, n)
+						res.Abandoned = fmt.Sprintf("C03: %s: task %s is in the requested closure but was neither executed nor mentioned", oi, n)
 						return true
 					}
 					continue
@@ -479,14 +486,16 @@ func (s *projState) judgeRun(res *Result, c *CHCase, oi int, op CHOp, prop, sig 
 
 		// ---- safety: a reported skip must be legal (C01; the force and failure flavours are C14 / C09)
 		if isReported && skipFlag && !legal {
-			msg := fmt.Sprintf("op%d: task %s reported skipped; current inputs {%s} != inputs of its last success %s", oi, n, in, lastDesc)
+			msg := fmt.Sprintf("%s: task %s reported skipped; current inputs {%s} != inputs of its last success %s", oi, n, in, lastDesc)
 			switch {
 			case prop == "C09" && s.lastFail[n]:
 				res.violate("C09", "failed-task-not-up-to-date", sig, "%s (its most recent execution failed)", msg)
-			case prop == "C14" && c.hadForceBefore(oi):
+			case prop == "C14" && forceBefore:
 				res.violate("C14", "force-does-not-damage-cache", sig, "%s (a forced run precedes)", msg)
 			case prop == "C01":
 				res.violate("C01", "skip-implies-inputs-equal-last-success", sig, "%s", msg)
+			case prop == "C10":
+				res.violate("C10", "no-wrong-skip-after-kill", sig, "%s", msg)
 			}
 			if prop == "C01" || prop == "C09" || prop == "C14" {
 				res.count("abandon_candidate:illegal_skip")
@@ -499,9 +508,9 @@ func (s *projState) judgeRun(res *Result, c *CHCase, oi int, op CHOp, prop, sig 
 		// ---- C14: force runs everything
 		if op.Force && !obs.Failed && prop == "C14" {
 			if !ran && t.NCmd > 0 {
-				res.violate("C14", "force-runs-every-task", sig, "op%d: --force given but task %s executed no command", oi, n)
+				res.violate("C14", "force-runs-every-task", sig, "%s: --force given but task %s executed no command", oi, n)
 			} else if isReported && skipFlag {
-				res.violate("C14", "force-runs-every-task", sig, "op%d: --force given but task %s reported skipped", oi, n)
+				res.violate("C14", "force-runs-every-task", sig, "%s: --force given but task %s reported skipped", oi, n)
 			}
 		}
 
@@ -509,13 +518,13 @@ func (s *projState) judgeRun(res *Result, c *CHCase, oi int, op CHOp, prop, sig 
 		if prop == "C02" {
 			mandatory := legal && !op.Force && nfiles >= 1
 			if mandatory && ran {
-				res.violate("C02", "unchanged-inputs-implies-skip", sig, "op%d: task %s last succeeded on exactly the current inputs {%s}, no --force, cache not removed — yet its commands ran again", oi, n, in)
+				res.violate("C02", "unchanged-inputs-implies-skip", sig, "%s: task %s last succeeded on exactly the current inputs {%s}, no --force, cache not removed — yet its commands ran again", oi, n, in)
 			}
 			if mandatory && !ran {
 				res.count("probe:mandatory_skip_observed")
 			}
 			if !t.HasFileDeps() && !obs.Failed && !ran {
-				res.violate("C02", "no-file-deps-always-run", sig, "op%d: task %s has no file dependency but executed no command", oi, n)
+				res.violate("C02", "no-file-deps-always-run", sig, "%s: task %s has no file dependency but executed no command", oi, n)
 			}
 			if legal && !op.Force && nfiles == 0 && t.HasFileDeps() {
 				res.count("accept_either:file_deps_match_no_regular_file")
@@ -533,7 +542,7 @@ func (s *projState) judgeRun(res *Result, c *CHCase, oi int, op CHOp, prop, sig 
 		res.count("fault_fired:command_failed")
 		if prop == "C09" {
 			if !obs.Failed {
-				res.violate("C09", "failing-command-fails-invocation", sig, "op%d: a command of task(s) %v exited non-zero but the invocation succeeded (flags force=%v json=%v quiet=%v)", oi, failingRan, op.Force, op.JSON, op.Quiet)
+				res.violate("C09", "failing-command-fails-invocation", sig, "%s: a command of task(s) %v exited non-zero but the invocation succeeded (flags force=%v json=%v quiet=%v)", oi, failingRan, op.Force, op.JSON, op.Quiet)
 			} else {
 				named := false
 				for _, t := range failingRan {
@@ -546,12 +555,18 @@ func (s *projState) judgeRun(res *Result, c *CHCase, oi int, op CHOp, prop, sig 
 					// literal dependency): which one the error reports is not specified
 					res.count("accept_either:failing_command_and_missing_dependency")
 				} else if !named {
-					res.violate("C09", "error-names-failing-task", sig, "op%d: the error %q names none of the failing tasks %v", oi, short(obs.ErrText, 200), failingRan)
+					res.violate("C09", "error-names-failing-task", sig, "%s: the error %q names none of the failing tasks %v", oi, short(obs.ErrText, 200), failingRan)
 				}
 			}
 		}
+	} else if obs.Failed && !anyMissing && prop == "C10" {
+		if strings.Contains(strings.ToLower(obs.ErrText), "cache") {
+			res.count("probe:explicit_cache_error_after_kill")
+		} else {
+			res.violate("C10", "failure-after-kill-is-about-the-cache", sig, "%s failed after a kill, no command fails and every dependency exists, yet the error does not mention the cache: %s", oi, short(obs.ErrText, 300))
+		}
 	} else if obs.Failed && !anyMissing {
-		res.Abandoned = fmt.Sprintf("op%d failed although no command was set to fail and every literal dependency exists: %s", oi, short(obs.ErrText, 200))
+		res.Abandoned = fmt.Sprintf("%s failed although no command was set to fail and every literal dependency exists: %s", oi, short(obs.ErrText, 200))
 		return true
 	}
 	if anyMissing {
